@@ -40,7 +40,7 @@ REQUIRED = {"all": ["move:full_shuffle", "move:swapRes", "move:swapRandChargeRes
                     "move:permute_cluster_charges", "move:get_shuffled_sequence", "move:get_permutant", "chains",
                     "hostile_tapes", "parent_dmax_cached", "parent_dmax_not_cached", "frozen_nonempty", "frozen_only_zero",
                     "frozen_all_charged", "uncharged_parents", "returned_parent_itself", "carried_dmax_checked",
-                    "ancestors_checked", "frozen_as_numpy_array", "frozen_list_with_repeats", "frozen_with_negative_entries"]}
+                    "ancestors_checked", "frozen_as_numpy_array", "frozen_list_with_repeats", "frozen_with_negative_entries", "reduced_alphabet_parents"]}
 NCASE = {"quick": 700, "thorough": 8000}
 DRAW_BUDGET = 20000
 BACKEND_MOVES = ["full_shuffle", "swapRes", "swapRandChargeRes", "permute_block_swap", "permute_cluster_charges"]
@@ -58,11 +58,17 @@ def cases(tier, seed):
         else:
             s = gen.rand_seq(rng, rng.choice(["idp", "polyampholyte", "polyelectrolyte", "short", "neutral_rich", "uniform", "single"]), hi=40)
         yield {"s": s, "o": rng.randrange(1 << 30), "hostile": (i % 4 == 0)}
+    # parents written in the reduced charge alphabet (+, -, 0) that the backend class supports natively (the delta-max
+    # search builds its candidates in it): the backend shuffle and swaps treat them like any other sequence
+    for i in range(NCASE[tier] // 12):
+        n = rng.randint(2, 24)
+        s = "".join(rng.choice("+-0" if i % 3 else "+-") for _ in range(n))
+        yield {"s": s, "o": rng.randrange(1 << 30), "hostile": (i % 4 == 0), "reduced": True}
 
 
 def make_frozen(rng, seq, rep):
     N = len(seq)
-    charged = [i for i, c in enumerate(seq) if c in "KRDE"]
+    charged = [i for i, c in enumerate(seq) if c in "KRDE+-"]
     kind = rng.choice(["empty", "empty", "zero", "single", "prefix", "charged", "all", "random", "random"])
     if kind == "empty":
         F = []
@@ -167,12 +173,15 @@ def judge(case, rep, S):
     fresh_cache = {}
     if not any(c in "KRDE" for c in seq):
         rep.cnt("uncharged_parents")
+    reduced = bool(case.get("reduced"))
+    if reduced:
+        rep.cnt("reduced_alphabet_parents")
     with installed([S["seqmod"], S["wlmod"]], shim):
         # ---- API-level shuffles
-        api = SP(seq)
-        if rng.random() < 0.5:
+        api = None if reduced else SP(seq)
+        if api is not None and rng.random() < 0.5:
             api.get_kappa()
-        for style in ("shuffle", "permutant"):
+        for style in (() if reduced else ("shuffle", "permutant")):
             parent = api.SeqObj if style == "shuffle" else None
             try:
                 if style == "shuffle":
@@ -224,7 +233,7 @@ def judge(case, rep, S):
         nmoves = rng.randint(1, 30) if rng.random() < 0.6 else rng.randint(1, 3)
         rep.cnt("chains")
         for step in range(nmoves):
-            move = rng.choice(BACKEND_MOVES)
+            move = rng.choice(BACKEND_MOVES[:3] if reduced else BACKEND_MOVES)
             parent, psnap = chain[-1]
             try:
                 if move == "swapRes":
